@@ -824,32 +824,32 @@ func TestVerif_C35(t *testing.T) {
 	r.Set("max_deviations", maxDev)
 
 	partB := func() {
-	nh := 0
-	tb := time.Now()
-	for _, cfg := range cfgs {
-		var alphabet []int
-		for i, e := range c35Elems {
-			if e.Big && !cfg.PreParse {
-				continue // without pre-parse a 16 MiB file adds nothing over the 9 KB one (the threshold there is 8 KiB / none)
+		nh := 0
+		tb := time.Now()
+		for _, cfg := range cfgs {
+			var alphabet []int
+			for i, e := range c35Elems {
+				if e.Big && !cfg.PreParse {
+					continue // without pre-parse a 16 MiB file adds nothing over the 9 KB one (the threshold there is 8 KiB / none)
+				}
+				if e.Name == "mp-big/parse" && !r.Thorough() {
+					continue
+				}
+				alphabet = append(alphabet, i)
 			}
-			if e.Name == "mp-big/parse" && !r.Thorough() {
-				continue
+			s := c35Server(cfg)
+			cnt := 0
+			var bigCtx map[string]bool
+			if !r.Thorough() {
+				bigCtx = map[string]bool{"get": true, "mp-9k/parse": true}
 			}
-			alphabet = append(alphabet, i)
+			c35Explore(r, s, dir, c35Hist{Cfg: cfg}, maxLen, maxBig, alphabet, bigCtx, &cnt)
+			nh += cnt
+			r.Eval(cnt)
 		}
-		s := c35Server(cfg)
-		cnt := 0
-		var bigCtx map[string]bool
-		if !r.Thorough() {
-			bigCtx = map[string]bool{"get": true, "mp-9k/parse": true}
-		}
-		c35Explore(r, s, dir, c35Hist{Cfg: cfg}, maxLen, maxBig, alphabet, bigCtx, &cnt)
-		nh += cnt
-		r.Eval(cnt)
-	}
-	r.Set("tempfile_histories", nh)
-	r.Set("tempfile_part_wall_s", time.Since(tb).Seconds())
-	r.Sample(c35Hist{Cfg: cfgs[0], Elems: []int{10, 4, 0}, Text: c35Hist{Cfg: cfgs[0], Elems: []int{10, 4, 0}}.String()})
+		r.Set("tempfile_histories", nh)
+		r.Set("tempfile_part_wall_s", time.Since(tb).Seconds())
+		r.Sample(c35Hist{Cfg: cfgs[0], Elems: []int{10, 4, 0}, Text: c35Hist{Cfg: cfgs[0], Elems: []int{10, 4, 0}}.String()})
 
 	}
 
